@@ -83,16 +83,7 @@ Fixpoint dict_paths_ok (f : path -> bool) (obj : value) (p : path) {struct obj} 
          end) kvs
   end.
 
-(* no bytes object among the searched values (keys are not searched as values) *)
 Definition atom_not_bytes (a : atom) : bool := match a with ABytes _ => false | _ => true end.
-Fixpoint bytes_free (obj : value) : bool :=
-  match obj with
-  | VAtom a => atom_not_bytes a
-  | VList xs | VTuple xs => forallb bytes_free xs
-  | VDict kvs => forallb (fun kv => bytes_free (snd kv)) kvs
-  | VSet xs | VFrozen xs => forallb atom_not_bytes xs
-  end.
-
 Section Spec.
   Variable brepr : pystr -> pystr.
   Variable re_search : pystr -> bool.
@@ -166,14 +157,6 @@ Section Spec.
     | EAtom (ABytes i) => isb && (if match_string c then pystr_eqb i txt else contains_sub i txt)
     | EAtom _ | EVal _ => false
     end.
-  (* mixing str and bytes in `in` / pattern.search raises TypeError *)
-  Definition str_raises (isb : bool) : bool :=
-    match it with
-    | ERe b => negb (Bool.eqb b isb)
-    | EAtom (AStr _) => isb && negb (match_string c)
-    | EAtom (ABytes _) => negb isb && negb (match_string c)
-    | EAtom _ | EVal _ => false
-    end.
   (* a number: Python equality; loose: the text of the number *)
   Definition num_match (a : atom) : bool :=
     match it with
@@ -182,6 +165,7 @@ Section Spec.
     | ERe b => negb (strict c) && negb b && re_search (str_atom a)
     | EVal _ => false
     end.
+  (* the TypeError that is left: a bytes pattern applied to the text of a number (loose mode) *)
   Definition num_raises : bool :=
     match it with ERe true => negb (strict c) | _ => false end.
 
@@ -195,8 +179,7 @@ Section Spec.
   Definition atom_raises (a : atom) : bool :=
     match a with
     | ANone => false
-    | AStr _ => str_raises false
-    | ABytes _ => str_raises true
+    | AStr _ | ABytes _ => false
     | ABool _ | AInt _ | AHalf _ => num_raises
     end.
   Definition leaf_match (v : value) : bool :=
@@ -215,10 +198,6 @@ Section Spec.
     (match_string c && pystr_eqb item_text txt)
     || (negb (match_string c) && contains_sub item_text txt)
     || match it with ERe false => re_search txt | _ => false end.
-  Definition text_raises (txt : pystr) : bool :=
-    negb ((match_string c && pystr_eqb item_text txt)
-          || (negb (match_string c) && contains_sub item_text txt))
-    && match it with ERe true => true | _ => false end.
   Definition path_match (q : path) : bool := text_match (fold_s (render q)).
 
   (* finding K16f: with the item None (or a container item) a str / bytes is searched as a
@@ -268,15 +247,11 @@ Section Spec.
                       | None => false
                       end) (locations obj []).
 
-  (* the constructor raises TypeError (str/bytes mixing) *)
+  (* the constructor raises TypeError: some number that the search enters, when the item is
+     a bytes pattern and strict_checking is off *)
   Definition raises_spec (obj : value) : bool :=
     negb item_excl &&
-    existsb (fun pv =>
-               (vis true [] obj (fst pv) && leaf_raises (snd pv))
-               || match entry_parent (fst pv) with
-                  | Some par => vis true [] obj par && text_raises (fold_s (render (fst pv)))
-                  | None => false
-                  end) (locations obj []).
+    existsb (fun pv => vis true [] obj (fst pv) && leaf_raises (snd pv)) (locations obj []).
 
   (* guards under which the two readings of exclusion coincide *)
   Definition k16_guard (obj : value) : bool :=
